@@ -49,6 +49,8 @@ TOL_EVAL = 5e-6
 TOL_EVAL_NUM = 2e-5
 EST_ABS = 5e-7
 EST_REL = 1e-7
+CURV_ABS = 1.0      # eV/A^2
+CURV_REL = 0.02
 E0_GUARD = 1e-8
 SCF_EPS = 1e-11
 CIS_TOL = 1e-9
@@ -360,7 +362,7 @@ def fd_energy_derivatives(Z, X, q, m, sett, dirs, excited=None):
     E = out["Etot"]
     nc = out["notconverged"]
     nc = np.zeros(len(geoms), bool) if nc is None else np.asarray(nc, bool).reshape(-1)
-    D, est, ok = [], [], []
+    D, est, ok, curv = [], [], [], []
     ce = out.get("cis_energies")
     for k in range(len(dirs)):
         sl = slice(1 + 6 * k, 7 + 6 * k)
@@ -370,6 +372,11 @@ def fd_energy_derivatives(Z, X, q, m, sett, dirs, excited=None):
         r2 = (4 * dq[2] - dq[1]) / 3
         D.append((16 * r2 - r1) / 15)
         est.append(abs(r2 - r1))
+        # second differences through the CENTRE energy (the one tied to the call under test): on one smooth surface
+        # they agree up to h^2 * E4 / 12; displaced points that sit on another SCF solution (offset dE) differ by
+        # 2 dE / h^2, i.e. by 1.9e6 * dE between the widest and the narrowest step
+        cv = [(e[2 * i] + e[2 * i + 1] - 2.0 * E[0]) / HS[i] ** 2 for i in range(3)]
+        curv.append(abs(cv[0] - cv[2]) / (CURV_ABS + CURV_REL * max(abs(c) for c in cv)))
         good = not bool(nc[sl].any()) and bool(np.all(np.isfinite(e)))
         if good and excited and ce is not None:
             a = excited["active"] - 1
@@ -380,7 +387,7 @@ def fd_energy_derivatives(Z, X, q, m, sett, dirs, excited=None):
                     if 0 <= nb < ce.shape[1] and abs(ce[r][nb] - ce[r][a]) < 0.1:
                         good = False
         ok.append(good)
-    return {"E0": float(E[0]), "nc0": bool(nc[0]), "D": D, "est": est, "ok": ok, "evals": len(geoms),
+    return {"E0": float(E[0]), "nc0": bool(nc[0]), "D": D, "est": est, "ok": ok, "curv": curv, "evals": len(geoms),
             "cis0": None if ce is None else ce[0]}
 
 
@@ -615,9 +622,10 @@ def run_case(case):
                     if not fd["ok"][k]:
                         mon["fd_dirs_unconverged"] += 1
                         continue
-                    if not (fd["est"][k] <= EST_ABS + EST_REL * abs(fd["D"][k])):
+                    if not (fd["est"][k] <= EST_ABS + EST_REL * abs(fd["D"][k])) or not (fd["curv"][k] <= 1.0):
                         mon["fd_dirs_not_smooth"] += 1
                         continue
+                    obs["max_curvature_guard_ratio"] = max(obs.get("max_curvature_guard_ratio", 0.0), float(fd["curv"][k]))
                     fdotd = float((F * d).sum())
                     err = abs(fdotd + fd["D"][k])
                     tol = TOL_ABS + TOL_REL * abs(fdotd) + sp2_allow
